@@ -74,9 +74,12 @@ def generate(seed, tier):
             rp = derived_rng(seed, 'C02u', i)
             side = rp.choice(['pos', 'spec'])
             cases[-1]['reuse_bad_side'] = side
-            cases[-1]['reuse_bad_how'] = rp.choice(['labels', 'units', 'both', 'values_labels'])
+            cases[-1]['reuse_bad_how'] = rp.choice(['labels', 'units', 'both', 'values_labels', 'indices_extra', 'indices_extra'])
             if not cases[-1]['reuse_' + side]:
                 cases[-1]['reuse_' + side] = rp.choice(['same', 'other'])
+        if err in ('reuse_undescribed', 'reuse_pair', 'lazy_fails') and derived_rng(seed, 'C02c', i).random() < 0.6:
+            # ... with nothing else wrong, so that THIS refusal is the one that decides the call
+            cases[-1].update(prior=[], name='MAIN', pos_prefix='Position_', spec_prefix='Spectroscopic_')
         if err == 'reuse_pair':
             rp = derived_rng(seed, 'C02r', i)
             side = rp.choice(['pos', 'spec'])
@@ -161,10 +164,16 @@ def _call(inp, grp, other, a, data_arr):
                     v.attrs[k_] = v_
             if a.get('reuse_undescribed') == side:
                 how = inp.get('reuse_bad_how')
+                if how == 'indices_extra':
+                    # the Indices matrix is described by MORE labels / units than the Values matrix (and than it has dimensions)
+                    vi = tgt[base + 'Indices']
+                    vi.attrs['labels'] = np.array(list(vi.attrs['labels']) + [b'ZZ'], dtype='S')
+                    vi.attrs['units'] = np.array(list(vi.attrs['units']) + [b'zz'], dtype='S')
+                    how = None
                 victims = [tgt[base + 'Values']] if how == 'values_labels' else [tgt[base + 'Indices'], tgt[base + 'Values']]
                 for v in victims:
                     for att in {'labels': ['labels'], 'units': ['units'], 'both': ['labels', 'units'],
-                                'values_labels': ['labels']}[how]:
+                                'values_labels': ['labels'], None: []}[how]:
                         if att in v.attrs:
                             del v.attrs[att]
             kw['h5_%s_inds' % side] = tgt[base + 'Indices']
